@@ -12,7 +12,7 @@ import (
 // C09 — every persisted version satisfies the MST shape invariants.
 
 var c09Weights = core.OpWeights{
-	core.OpInsert: 20, core.OpInsertNew: 30, core.OpUpdate: 4, core.OpDelete: 34,
+	core.OpInsert: 20, core.OpInsertNew: 30, core.OpUpdate: 4, core.OpDelete: 30, core.OpDeleteTop: 8,
 	core.OpClone: 3, core.OpPersistFail: 2, core.OpPersist: 10, core.OpReload: 5, core.OpReloadJSON: 1, core.OpDrain: 1,
 }
 
